@@ -68,7 +68,7 @@ func unpackTokens(h *uHeader) ([]string, [][2]string) {
 			set[t] = true
 		}
 	}
-	for _, t := range []string{"a", "b", "c", "f", "s", "t", "u", "l", "nowhere"} {
+	for _, t := range []string{"a", "b", "c", "f", "s", "t", "u", "l", "x", "nowhere"} {
 		set[t] = true
 	}
 	var toks []string
